@@ -17,6 +17,16 @@ DESC_POOL = ["desc", "it's (c)", "ünï ¢", "  leading", "trailing  ", "", "'qu
              "tab\there", "ends with nbsp ", "a  b", "# uuid: x", "　"]
 COMMENT_POOL = ["note", "  indented", "", "x ; y", " ", "\ttab", "trailing ", "ünï", "; ;", "# tags: a", "'", "a "]
 TAG_POOL = ["t1", "a:b", "x-y", "t2:z:9", "Ω", "a_b:1", "é", "T1", "tag:2024:01"]
+CODE_BAD = ["a[b", "a]b", "a<b", "a>b", "a{b", "a}b", "a(b", "a'b", "(", "]"]    # must be rejected
+# ends of the ranges of identifier.rs (id_start_char / id_char) and their outer neighbours
+ID_BOUNDS = sorted(set(sum([[a - 1, a, b, b + 1] for a, b in [
+    (0x61, 0x7A), (0x41, 0x5A), (0x24, 0x24), (0xA2, 0xA5), (0xC0, 0xD6), (0xD8, 0xF6), (0xF8, 0x2FF), (0x370, 0x37D),
+    (0x37F, 0x1FFF), (0x200C, 0x200D), (0x2070, 0x218F), (0x2C00, 0x2FEF), (0x3001, 0xD7FF), (0xF900, 0xFDCF),
+    (0xFDF0, 0xFFFD), (0xB5, 0xB5), (0xB9, 0xB9), (0xB2, 0xB3), (0xB0, 0xB0), (0xBC, 0xBE), (0x30, 0x39), (0x5F, 0x5F),
+    (0x2D, 0x2D), (0xB7, 0xB7), (0x300, 0x36F), (0x203F, 0x2040)]], [])))
+ID_BOUNDS = [c for c in ID_BOUNDS if not (0xD800 <= c <= 0xDFFF) and c not in (0x0A, 0x0D)]
+WS_CHARS = [0x09, 0x0B, 0x0C, 0x20, 0x85, 0xA0, 0x1680, 0x2000, 0x200A, 0x2028, 0x2029, 0x202F, 0x205F, 0x3000,
+            0x1F, 0x84, 0x86, 0x9F, 0xA1, 0x167F, 0x180E, 0x1FFF, 0x200B, 0x2027, 0x202A, 0x2030, 0x2060, 0x2FFF, 0x3001, 0xFEFF]
 
 
 def dec_str(m, s):
@@ -95,9 +105,13 @@ class G:
         if t["last"] and r.random() < 0.4:
             t["last"]["comment"] = r.choice(COMMENT_POOL)
         if r.random() < 0.45:
-            t["code"] = r.choice(CODE_POOL)
+            t["code"] = r.choice(CODE_POOL) if r.random() < 0.95 else r.choice(CODE_BAD)
+            if r.random() < 0.15:
+                t["code"] = chr(r.choice(WS_CHARS)) + "c" + chr(r.choice(WS_CHARS))      # str::trim
         if r.random() < 0.55:
             t["desc"] = r.choice(DESC_POOL + ["d%d" % i])
+            if r.random() < 0.15:
+                t["desc"] = chr(r.choice(WS_CHARS)) + "d" + chr(r.choice(WS_CHARS))      # str::trim_end
         if r.random() < 0.4:
             u = "%032x" % r.getrandbits(128)
             u = "-".join([u[:8], u[8:12], u[12:16], u[16:20], u[20:]])
@@ -114,6 +128,8 @@ class G:
             t["loc"] = (lat, lon, alt)
         if r.random() < 0.35:
             t["tags"] = r.sample(TAG_POOL, r.randint(1, 4))
+            if r.random() < 0.06:
+                t["tags"].append(r.choice(t["tags"]))                                     # duplicate: rejected
         if r.random() < 0.35:
             t["comments"] = [r.choice(COMMENT_POOL) for _ in range(r.randint(1, 3))]
         return t
@@ -199,7 +215,7 @@ def render(r, ts, plain=False):
     return out
 
 
-MUT_CHARS = list(" \t;:#@={}().-'0a,Z+T") + ["\r", "\n", "€", " ", "1", "9", "x", "/", "\""]
+MUT_CHARS = list(" \t;:#@={}().-'0a,Z+T[]<>") + ["\r", "\n", "€", " ", "1", "9", "x", "/", "\""]
 
 
 def mutate_text(r, text):
@@ -318,10 +334,9 @@ def gen_cases(run, n):
         for f in sorted(os.listdir(cdir)):
             if f.endswith(".json"):
                 c = json.load(open(os.path.join(cdir, f)))
-                c.setdefault("cfg", 0)
-                c.setdefault("tags", [])
-                c["src"] = "corpus/" + f
-                cases.append(c)
+                for k, text in enumerate(c.pop("texts", [c.get("text")])):
+                    cases.append({"text": text, "cfg": c.get("cfg", 0), "tags": list(c.get("tags", [])),
+                                  "src": "corpus/%s#%d" % (f, k)})
     for i in range(n):
         k = r.random()
         g = G(r, big=(r.random() < 0.08))
@@ -342,6 +357,32 @@ def gen_cases(run, n):
             t["posts"].insert(0, {"acc": "x:inexact", "amount": a, "comm": fc, "closing": ("@", pr, base), "opening": None, "comment": None})
             t["last"] = {"acc": "x:rest", "comment": None}
             tags.append("inexact-price-product")
+        if 0.38 <= k < 0.46:
+            # identifier.rs range ends: one code point at the start or inside an account / commodity / tag name
+            cp = chr(r.choice(ID_BOUNDS))
+            where = r.randint(0, 4)
+            t = ts[0]
+            p = t["posts"][0]
+            if where == 0:
+                p["acc"] = cp + "x:y"
+            elif where == 1:
+                p["acc"] = "x" + cp + ":y"
+            elif where == 2:
+                p["acc"] = "x:" + cp + "y"
+            elif where == 3:
+                t["tags"] = ["t" + cp, cp + "t"][r.randint(0, 1):][:1]
+            else:
+                old = p["comm"]
+                new = ("c" + cp) if r.random() < 0.5 else (cp + "c")
+                if old:
+                    for q in t["posts"]:
+                        if q["comm"] == old:
+                            q["comm"] = new
+                        if q.get("closing") and q["closing"][2] == old:
+                            q["closing"] = (q["closing"][0], q["closing"][1], new)
+                        if q.get("opening") and q["opening"][1] == old:
+                            q["opening"] = (q["opening"][0], new)
+            tags.append("name-boundary-U+%04X" % ord(cp))
         text = render(r, ts, plain=(r.random() < 0.25))
         if 0.08 <= k < 0.38:
             text, tag = mutate_text(r, text)
